@@ -127,6 +127,9 @@ def snapshot(fe, kernel, cp, dep, ignore_unknown, bits):
     """Everything the translated methods read, plus what the Python methods return on it.  Plain data (picklable)."""
     from osaca.semantics import ArchSemantics
     ports = [str(p) for p in fe._machine_model.get_ports()]
+    est = sum(len(dep[k]["dependencies"]) + 4 for k in dep) + (len(kernel) + len(cp)) * (3 * len(ports) + 14)
+    if est > MAX_TERM:
+        return {"skipped": "too large for a Coq term (%d)" % est}
     nodes = list(kernel) + list(cp) + [n for k in dep for n, _ in dep[k]["dependencies"]] + [dep[k]["root"] for k in dep]
     if not all(usable_line(x) for x in nodes) or not all(isinstance(k, str) for k in dep):
         return {"skipped": "attribute types outside the representation"}
@@ -583,6 +586,25 @@ def unit_cases(rng, n, ctx=None):
                      '(g_get_node_by_lineno %s %s) %s)]' % (z(ln), lst(coq_line(line_data(x)) for x in kernel),
                                                         res(r, lambda x: opt(x, lambda y: coq_line(line_data(y))))))
         hist["node"] += 1
+    # osaca.py:inspect's decision slice, executed from the (rewritten) source
+    try:
+        import py2coq
+        _defs, src = gen_c13.gen_inspect(vlib.REPO, gen_c13.C13Unit(os.path.join(vlib.REPO, "osaca/frontend.py"), "Frontend", {}))
+        ns = {}
+        exec(compile(src, "<inspect slice>", "exec"), ns)
+        hist["inspect"] = 0
+        so = lambda v: opt(v, cs)
+        for arch in (None, "", "zen1", "SKX"):
+            r = call(lambda: bool(ns["print_arch_warning"](arch)))
+            terms.append('[("inspect-arch", res_eqb Bool.eqb (g_print_arch_warning %s) %s)]' % (so(arch), res(r, b)))
+            hist["inspect"] += 1
+        for lines in (None, "", "1-5"):
+            for kl, pl in ((0, 0), (5, 5), (100, 100), (101, 101), (101, 150), (150, 150), (150, 101), (3, 200)):
+                r = call(lambda: bool(ns["print_length_warning"](lines, kl, pl)))
+                terms.append('[("inspect-length", res_eqb Bool.eqb (g_print_length_warning %s %s %s) %s)]' % (so(lines), z(kl), z(pl), res(r, b)))
+                hist["inspect"] += 1
+    except (gen_c13.Unsupported, SyntaxError, KeyError) as e:
+        hist["inspect"] = "slice not available: %s" % e
     return [("term", t) for t in terms], hist
 
 
@@ -692,5 +714,5 @@ def run(ctx, results):
         rng = random.Random("C13tie-search/%s" % ctx.seed)
         _, hist = unit_cases(rng, ctx.n(1500, 10000), ctx)
         ctx.coverage["c13tie_search"] = hist
-        ctx.log("translation tie broken: unit-level search over %d inputs" % sum(hist.values()))
+        ctx.log("translation tie broken: unit-level search over %d inputs" % sum(v for v in hist.values() if isinstance(v, int)))
     ctx.log("translation tie (regenerate, compile, re-prove, cross-check): %.1fs" % (time.time() - t0))
